@@ -8,15 +8,16 @@ from harness.core import Result
 from harness import xsdgen, xmlcanon, enginea
 from harness.props import c03
 
-LEAN_MODULES = ["ZeepProofs.C08"]
+LEAN_MODULES = ["ZeepProofs.C08", "ZeepProofs.C08Reply"]
 NS = "Zeep.Xsd."
 THEOREMS = [NS + t for t in ("c08_deque_never_grows", "c08_element_rounds", "c08_sequence_rounds", "c08_choice_rounds", "c08_group_rounds",
-                             "c08_choice_progress", "c08_alloc_unbounded", "shrinks")]
+                             "c08_choice_progress", "c08_alloc_unbounded", "shrinks")] + [
+    "Zeep.Soap.c08_subcodes_fuel_independent", "Zeep.Soap.c08_subcodes_length", "Zeep.MultiRef.c08_multiref_fuel_independent"]
 LEVEL = "proof"
 MANIFEST = dict(
-    engine="A: lean/ZeepModel/Xsd/Parse.lean",
+    engine="A: lean/ZeepModel/Xsd/Parse.lean (+ Soap/Reply.lean, MultiRef.lean for the loops around the decoder)",
     technique="Lean 4: the model decoder is total (structural recursion); by mutual induction over its eight functions, for every particle, mode, deque and every round limit (maxOccurs): the deque never grows and rounds + |rest| <= |deque| for element / sequence / choice loops (one more for group) + exact equality of counted decode calls between zeep (sys.setprofile) and the model, and an interpreter call-event budget, on valid, mutated and soup documents",
-    text="The progress theorems are independent of maxOccurs (the round limit is universally quantified, 2^31-1 included), hold in both modes and for arbitrary nesting of sequence / choice / all / group: no document can make a repetition loop run more rounds than it has nodes, nor allocate more result entries. Tied on every run by counting parse_xmlelements / parse_xmlelement call events in zeep with sys.setprofile and requiring equality with the model's counter, plus a budget of 300 interpreter call events per (document node x schema particle); families that would blow up (unbounded groups followed by foreign elements, choices nested 14 deep, large finite maxOccurs) are included.",
+    text="Around the decoder (ZeepProofs/C08Reply.lean): the SOAP 1.2 Subcode walk makes at most depth(fault) steps and returns at most that many subcodes (c08_subcodes_fuel_independent, c08_subcodes_length), and dereferencing an out-lined rpc/encoded reply needs recursion no deeper than the inline tree (c08_multiref_fuel_independent); whole replies (multiRef graphs incl. cycles, subcode chains, Subcodes without Value) run through the client under an event budget. The progress theorems are independent of maxOccurs (the round limit is universally quantified, 2^31-1 included), hold in both modes and for arbitrary nesting of sequence / choice / all / group: no document can make a repetition loop run more rounds than it has nodes, nor allocate more result entries. Tied on every run by counting parse_xmlelements / parse_xmlelement call events in zeep with sys.setprofile and requiring equality with the model's counter, plus a budget of 300 interpreter call events per (document node x schema particle); families that would blow up (unbounded groups followed by foreign elements, choices nested 14 deep, large finite maxOccurs) are included.",
     note="Partial: a closed-form polynomial bound on the number of calls is not proved in Lean (the progress invariants it would rest on are); the polynomial budget is enforced by the tie. Values decoded for repeated xsd:group references are not compared (zeep's value construction for them raises; outside F-core).",
     design_ref="DESIGN.md section 6, C08",
 )
